@@ -214,6 +214,9 @@ func (c *Ctx) Finish() int {
 	}
 	sort.Strings(ks)
 	cov["known_findings_reproduced"] = ks
+	if c.Assumptions == nil {
+		c.Assumptions = []string{}
+	}
 	e := map[string]any{
 		"property_id": c.ID, "tier": c.Tier, "seed": c.Seed, "level": c.Level,
 		"coverage": cov, "assumptions": c.Assumptions,
